@@ -215,7 +215,7 @@ type c05case struct {
 // C05: generated Go code is a faithful translation of the schema.
 func C05(c *runner.Cfg) *report.Result {
 	res := report.New("C05", "")
-	res.Rule = "schema sets from the grammar-directed generator (messages with every field kind, enums, nested structs, lists of every element kind, multi-file and multi-package imports with aliases, services with every method form, contextual keywords as names, tags up to 65535) are compiled and generated in-process and by the real cmd/spec binary; (a) regeneration (3 further in-process generations, one of them in place over older and longer files, + 1 CLI process per set) must be byte-identical; (b) the generated packages are linked with a reflective driver: for every declared message (also the request/response messages implied by method field lists), struct and enum and for seeded values of them: generated writer bytes == independent reference encoder bytes == dynamic tag-based writer bytes; the dynamic reader on generated bytes returns the value; generated readers (Build result, Open, OpenErr, Parse behind a prefix with size, New(spec.Message), Clone, Merge+Build) return the value with Has<Field> == written and zero values for absent fields; struct Encode/Decode/Open are inverse with size == bytes (also behind a prefix) and equal to the reference encoding; enum constants equal the declared numbers and enums encode as int32; nested messages are written through the typed sub-writers and through Copy<Field>; the expected Go names follow the documented snake_case -> UpperCamelCase convention; non-trivial = value with at least one field; distinct = distinct (definition, value) pairs"
+	res.Rule = "schema sets from the grammar-directed generator (messages with every field kind, enums, nested structs, lists of every element kind, multi-file and multi-package imports with aliases, services with every method form, contextual keywords as names, tags up to 65535) are compiled and generated in-process and by the real cmd/spec binary; (a) regeneration (6 further in-process generations, one of them in place over older and longer files, + 1 CLI process per set) must be byte-identical; (b) the generated packages are linked with a reflective driver: for every declared message (also the request/response messages implied by method field lists), struct and enum and for seeded values of them: generated writer bytes == independent reference encoder bytes == dynamic tag-based writer bytes; the dynamic reader on generated bytes returns the value; generated readers (Build result, Open, OpenErr, Parse behind a prefix with size, New(spec.Message), Clone, Merge+Build) return the value with Has<Field> == written and zero values for absent fields; struct Encode/Decode/Open are inverse with size == bytes (also behind a prefix) and equal to the reference encoding; enum constants equal the declared numbers and enums encode as int32; nested messages are written through the typed sub-writers and through Copy<Field>; the expected Go names follow the documented snake_case -> UpperCamelCase convention; non-trivial = value with at least one field; distinct = distinct (definition, value) pairs"
 	sc, err := newScratch()
 	if err != nil {
 		res.Inconcl("scratch module: %v", err)
@@ -266,7 +266,7 @@ func C05(c *runner.Cfg) *report.Result {
 		}
 		// (a) regeneration is byte-identical: in-process and through the CLI in a fresh process
 		first := readTree(filepath.Join(sc.Dir, dir))
-		for k := 0; k < 4; k++ {
+		for k := 0; k < 7; k++ {
 			alt := filepath.Join(sc.Dir, "_regen", fmt.Sprintf("%s-%d", dir, k))
 			var rerr error
 			for _, p := range s.Pkgs {
@@ -281,7 +281,7 @@ func C05(c *runner.Cfg) *report.Result {
 						}
 					}
 				}
-				if k < 3 {
+				if k != 3 {
 					rerr = vlang.Generate(sc.SrcDir(p), dst, []string{sc.Schemas}, false)
 				} else {
 					cmd := exec.Command(cli, "generate", "-i", sc.Schemas, sc.SrcDir(p), dst)
